@@ -484,13 +484,24 @@ func c08Execute(p c08plan, tscale int) (run c08run) {
 // ---------------------------------------------------------------------------------------------
 // script for the model
 
-func c08Script(run c08run) string {
+// c08Script renders the session for the model. resetAfter (counterfactual only) marks units
+// after whose delivery the model's read-loop buffer is emptied.
+// idleEvery: an idle read-loop iteration (empty read) after every read instead of only between
+// bursts. Whether the loop idles between two reads is scheduling; it cannot matter inside the
+// theorems' hypotheses, but it can move the cut point of a known-finding (F2) truncation.
+func c08Script(run c08run, resetAfter map[int]bool, idleEvery bool) string {
 	var items []string
 	ui := 0
 	emitPhase := func(ph int, poll bool) {
 		for ui < len(run.units) && run.units[ui].phase <= ph {
 			u := run.units[ui]
-			cs := append([][]byte{}, u.chunks...)
+			var cs [][]byte
+			for _, ch := range u.chunks {
+				cs = append(cs, ch)
+				if idleEvery {
+					cs = append(cs, []byte{})
+				}
+			}
 			cs = append(cs, []byte{}) // the read loop idles between bursts
 			switch u.kind {
 			case "E":
@@ -503,6 +514,9 @@ func c08Script(run c08run) string {
 				for _, c := range cs {
 					items = append(items, "R"+vlib.Hex(c))
 				}
+			}
+			if resetAfter[ui] {
+				items = append(items, "Z")
 			}
 			if poll {
 				items = append(items, "P") // the caller polls all the time
@@ -718,7 +732,7 @@ func runC08(c *ctx) {
 			res.Fail("machinery", jb.line, "could not attribute the delivered reads to the emitted messages", "harness-alignment")
 			return false
 		}
-		script := c08Script(run)
+		script := c08Script(run, nil, false)
 		ver := "1.0"
 		if p.v11 {
 			ver = "1.1"
@@ -767,6 +781,67 @@ func runC08(c *ctx) {
 			}
 			return "unattributed"
 		}
+		// Known findings leave the read loop in a state the hypotheses do not describe (the cut-off
+		// remainder of an F2 message stays in the buffer). Counterfactual: the same session with the
+		// buffer emptied right after every delivery that violates `early`/`id`. A later anomaly that
+		// the model reproduces as is and that disappears in the counterfactual is a knock-on effect.
+		faulty := map[int]bool{}
+		faultyEarly := map[int]bool{}
+		for ui := range run.units {
+			for _, r := range strings.Split(unitReason[ui], "+") {
+				if r == "early" || r == "id" {
+					faulty[ui] = true
+				}
+				if r == "early" {
+					faultyEarly[ui] = true
+				}
+			}
+		}
+		var cfModel []string
+		if len(faulty) > 0 {
+			cf := strings.Fields(c.ask([]string{"c08 sess " + ver + " " + c08Script(run, faulty, false)})[0])
+			if len(cf) == 5 {
+				_, cfModel = c08ParseResults(cf[2])
+			}
+		}
+		// knockOn: which known finding (if any) explains an anomaly of call k
+		knockOn := func(k int, implRaw []byte, implT bool) string {
+			if len(cfModel) != len(p.calls) {
+				return ""
+			}
+			ok := false
+			if L.spec[k] == "T" {
+				ok = cfModel[k] == "T"
+			} else if cfModel[k] != "T" {
+				sb, _ := vlib.UnHex(L.spec[k])
+				mb, _ := vlib.UnHex(cfModel[k])
+				ok = bytes.Equal(c08TrimLF(mb), c08TrimLF(sb))
+			}
+			if !ok {
+				return ""
+			}
+			// the event must precede: a faulty delivery before this call's own reply (or, when the
+			// call has none in its window, before the end of its window)
+			limit := -1
+			for ui, u := range run.units {
+				if u.phase <= 2*k {
+					limit = ui + 1
+				}
+				if (u.kind == "R" || u.kind == "ER") && u.toIdx == k && u.phase == 2*k {
+					limit = ui
+					break
+				}
+			}
+			kind := ""
+			for ui := 0; ui < limit; ui++ {
+				if faultyEarly[ui] {
+					kind = "hash-hash-line"
+				} else if faulty[ui] && kind == "" {
+					kind = "msgid-split"
+				}
+			}
+			return kind
+		}
 		inProp := true // inside the property's own quantifier (no "</rpc>" text in replies, well-behaved server)
 		for _, cl := range p.calls {
 			if bytes.Contains(cl.payload, []byte("</rpc>")) || cl.rogue != nil {
@@ -779,6 +854,9 @@ func runC08(c *ctx) {
 		type fail struct{ kind, detail, sig string }
 		var fails []fail
 		lostTiming := false
+		knockCount := 0
+		idleCount := 0
+		var idleModel []string
 		// ids
 		idBase := 0
 		if len(run.reqIDs) > 0 {
@@ -831,11 +909,32 @@ func runC08(c *ctx) {
 				sb, _ := vlib.UnHex(L.spec[k])
 				specOK = impl != "T" && bytes.Equal(c08TrimLF(o.raw), c08TrimLF(sb))
 			}
-			modelSame := impl == L.model[k]
-			if !modelSame && impl != "T" && L.model[k] != "T" {
+			sameAs := func(m string) bool {
+				if impl == m {
+					return true
+				}
+				if impl == "T" || m == "T" {
+					return false
+				}
 				// line feeds around a message are not observable through Result: compare modulo them
-				mb, _ := vlib.UnHex(L.model[k])
-				modelSame = bytes.Equal(c08TrimLF(o.raw), c08TrimLF(mb))
+				mb, _ := vlib.UnHex(m)
+				return bytes.Equal(c08TrimLF(o.raw), c08TrimLF(mb))
+			}
+			modelSame := sameAs(L.model[k])
+			if !modelSame && !L.dom {
+				// outside the hypotheses the outcome may depend on whether the loop idled between
+				// two reads: accept the model's answer under the other schedule as well
+				if idleModel == nil {
+					ia := strings.Fields(c.ask([]string{"c08 sess " + ver + " " + c08Script(run, nil, true)})[0])
+					idleModel = []string{}
+					if len(ia) == 5 {
+						_, idleModel = c08ParseResults(ia[2])
+					}
+				}
+				if len(idleModel) == len(p.calls) && sameAs(idleModel[k]) {
+					modelSame = true
+					idleCount++
+				}
 			}
 			if !modelSame && !specOK {
 				if impl == "T" && L.model[k] != "T" {
@@ -876,6 +975,19 @@ func runC08(c *ctx) {
 						sig = "misfiled-reply:" + c08cause(blame(o.raw))
 					}
 				}
+				if modelSame && (strings.HasSuffix(sig, ":in-domain") || strings.HasSuffix(sig, ":unattributed")) {
+					if kind := knockOn(k, o.raw, impl == "T"); kind != "" {
+						effect := sig[:strings.Index(sig, ":")]
+						if impl != "T" && L.spec[k] != "T" {
+							sb, _ := vlib.UnHex(L.spec[k])
+							if bytes.HasSuffix(c08TrimLF(o.raw), c08TrimLF(sb)) {
+								effect = "glued-reply"
+							}
+						}
+						sig = effect + ":knock-on-after-" + kind
+						knockCount++
+					}
+				}
 				got := "returned " + c08short(impl)
 				if impl == "T" {
 					got = "timed out"
@@ -890,6 +1002,8 @@ func runC08(c *ctx) {
 		if lostTiming && !final {
 			return true
 		}
+		res.Distribution["knock-on-after-known-finding"] += knockCount
+		res.Distribution["matched-model-under-idle-read-schedule(outside hypotheses)"] += idleCount
 		nontrivial := false
 		for _, cl := range p.calls {
 			if len(p.calls) >= 2 && (cl.mode != 0 || p.echo != 0) {
